@@ -1300,9 +1300,9 @@ class tensor:
 
         # Np transpose does error checking on order, acts as permutation
 
-        return ttb.tensor(
-            to_memory_order(np.transpose(self.data, order), self.order), copy=False
-        )
+        # (copy: the transposed view of C-ordered data - a tensor enlarged by assignment -
+        # is already in the right memory order and would otherwise be shared)
+        return ttb.tensor(np.transpose(self.data, order), copy=True)
 
     def reshape(self, shape: Shape) -> tensor:
         """
